@@ -22,6 +22,7 @@ func init() {
 			"every mutating handler decides on a transaction before its first storage access, begins a read-write transaction when the storage is transactional, arms Rollback of it and switches req.Storage to it before any access, performs every access through req.Storage as loaded after that point (never a saved copy of the original storage), reaches a nil-error return after a successful write only across Commit's success edge on req.Storage's transaction (or the not-a-transaction edges), and writes nothing after Commit; " +
 			"(2) in pathDataWrite/pathDataPatch the version Put, AddVersion, the metadata write, the pruning and the reported version lie behind the success edge of validateCheckAndSetOption, which is evaluated on the metadata read under the lock (or a fresh zero-version record) and the engine config; the same metadata object is validated, bumped, persisted and reported; validateCheckAndSetOption returns nil only across (cas absent and not required by config or key) or (cas decoded and equal to meta.CurrentVersion); the version key is getVersionKey(lockedKey, the number AddVersion assigns); the stored value is the marshalled request data (for patch: the merge applied to the data read from the current version's key); the metadata write follows the version Put's success, pruning and the reported version follow the metadata write's success; the reported version is meta.CurrentVersion loaded after AddVersion; AddVersion increments CurrentVersion by exactly one on every path, files the returned entry under the incremented number; only AddVersion writes CurrentVersion/OldestVersion/elements of the Versions map (field-writer tables), only the tabled handlers write Destroyed/DeletionTime; pruning deletes only getVersionKey(lockedKey, n) for n counting down from AddVersion's second result; who-may-call tables for validateCheckAndSetOption, AddVersion, cleanupOldVersions; " +
 			"(4) delete/undelete/destroy/data-delete modify only entries meta.Versions[n] of the metadata read under the lock with n taken from the request's versions field (CurrentVersion for data delete), never a missing entry, never the deletion time of a destroyed one, and persist that same record; destroy persists Destroyed before deleting version data, and deletes only keys of the named numbers; metadata delete removes only the version keys listed in the key's own metadata and its metadata entry, the latter never after a failed version delete; metadata PATCH can only touch the five settings fields; " +
+			"metadata PUT and metadata PATCH persist the metadata record only behind an exact check-and-set on the metadata version (a supplied metadata_cas must equal CurrentMetadataVersion of the record read under the lock, or 0 for a new key), and a request without metadata_cas reaches the write neither when the key's nor when the engine's metadata_cas_required is set (required = key OR engine; evaluated phi-sensitively so that the short-circuit value is followed); " +
 			"(5) data/subkeys reads hold the read lock, read the version data of the same number whose metadata entry they checked (current or requested), and only for an existing, non-destroyed, not-yet-deleted version; the payload returned lies behind a successful, non-empty storage Get; " +
 			"(3) no error result of a storage call, transaction call or kv storage helper in package kv is dropped (deferred Rollback excepted).",
 		NotDecided: "linearizability of concurrent histories as such (schedules); 'affects only the versions named' beyond the provenance of the version numbers (value-level set reasoning: AddVersion's pruning window arithmetic, the JSON merge in metadata patch, cleanupOldVersions stopping at the first missing blob); atomicity on non-transactional storage when a failure hits between the version write and the metadata write (by design there is none); conflict detection / isolation inside the storage transaction implementation; the engine configuration (read outside the per-key lock and transaction by design); the upgrade routine (upgrade.go upgradeKey), which is not a registered handler and runs while all handlers are refused.",
@@ -793,6 +794,8 @@ func runC14(c *eng.Ctx, thorough bool) {
 	c14DestroyRules(c)
 	c14MetadataDeleteRules(c)
 	c14MetadataPatchRules(c)
+	c14MetadataCasRules(c, "kv.(*versionedKVBackend).pathMetadataWrite$1")
+	c14MetadataCasRules(c, "kv.(*versionedKVBackend).pathMetadataPatch$1")
 	// ---------------- C14.5 reads
 	c14ReadRules(c, "kv.(*versionedKVBackend).pathDataRead$1", st)
 	c14ReadRules(c, "kv.(*versionedKVBackend).pathSubkeysRead$1", st)
@@ -1851,4 +1854,368 @@ func c14ErrRules(c *eng.Ctx) {
 		}
 	}
 	c.Floor(nil, "storage-related calls in package kv", n, 80)
+}
+
+// ---------------------------------------------------------------------------
+// C14.2 (metadata record): exact check-and-set on the metadata version of
+// metadata PUT and metadata PATCH
+
+// c14OpKey names an operand of a fact: loads of a field are keyed by
+// (base value, field) so that two loads of the same field agree (go/ssa has no
+// CSE); everything else by SSA identity.
+func c14OpKey(v ssa.Value) string {
+	for {
+		switch x := v.(type) {
+		case *ssa.ChangeType:
+			v = x.X
+			continue
+		case *ssa.MakeInterface:
+			v = x.X
+			continue
+		case *ssa.Convert:
+			v = x.X
+			continue
+		}
+		break
+	}
+	if k, ok := v.(*ssa.Const); ok {
+		if k.Value == nil {
+			return "c:nil"
+		}
+		return "c:" + k.Value.ExactString()
+	}
+	if u, ok := v.(*ssa.UnOp); ok && u.Op == token.MUL {
+		if fa, ok := u.X.(*ssa.FieldAddr); ok {
+			if fv := eng.FieldVar(fa); fv != nil {
+				return c14FieldKey(fa.X, fv.Name())
+			}
+		}
+	}
+	return fmt.Sprintf("v:%p", v)
+}
+
+func c14FieldKey(base ssa.Value, field string) string {
+	return fmt.Sprintf("f:%p.%s;", base, field)
+}
+
+func c14NilKey(v ssa.Value) string { return "eq(" + c14OpKey(v) + ",c:nil)" }
+
+// c14FactKey: boolean value v holds iff (proposition key) == pol.
+func c14FactKey(v ssa.Value) (key string, pol bool) {
+	pol = true
+	for {
+		if u, ok := v.(*ssa.UnOp); ok && u.Op == token.NOT {
+			pol = !pol
+			v = u.X
+			continue
+		}
+		break
+	}
+	if b, ok := v.(*ssa.BinOp); ok && (b.Op == token.EQL || b.Op == token.NEQ) {
+		x, y := c14OpKey(b.X), c14OpKey(b.Y)
+		if strings.HasPrefix(x, "c:") || (x > y && !strings.HasPrefix(y, "c:")) {
+			x, y = y, x
+		}
+		if b.Op == token.NEQ {
+			pol = !pol
+		}
+		return "eq(" + x + "," + y + ")", pol
+	}
+	return c14OpKey(v), pol
+}
+
+type c14WalkHit struct {
+	instr   ssa.Instruction
+	witness []string
+}
+
+// c14Walk is a forward reachability walk from the entry of fn that — unlike
+// eng.Reach — (a) decides an If that tests a boolean phi of its own block by
+// the value flowing in along the arrival edge (what `a || b` and `a && b`
+// compile to), and (b) carries boolean facts: the given initial facts plus
+// what every branch taken establishes about a proposition tested more than
+// once. A store to a field drops the facts about that field. exhausted
+// reports that the state bound was hit (the caller must not conclude).
+func c14Walk(fn *ssa.Function, facts map[string]bool, blocked []eng.Edge, target func(ssa.Instruction) bool) (hit *c14WalkHit, exhausted bool) {
+	if len(fn.Blocks) == 0 {
+		return nil, false
+	}
+	isBlocked := map[eng.Edge]bool{}
+	for _, e := range blocked {
+		isBlocked[e] = true
+	}
+	// propositions worth tracking: initial ones and those tested at least twice
+	count := map[string]int{}
+	for _, b := range fn.Blocks {
+		ifi := eng.IfOf(b)
+		if ifi == nil {
+			continue
+		}
+		v := ifi.Cond
+		for {
+			if u, ok := v.(*ssa.UnOp); ok && u.Op == token.NOT {
+				v = u.X
+				continue
+			}
+			break
+		}
+		if phi, ok := v.(*ssa.Phi); ok && phi.Block() == b {
+			for _, e := range phi.Edges {
+				k, _ := c14FactKey(e)
+				count[k]++
+			}
+			continue
+		}
+		k, _ := c14FactKey(v)
+		count[k]++
+	}
+	tracked := func(k string) bool {
+		if _, ok := facts[k]; ok {
+			return true
+		}
+		return count[k] >= 2 && !strings.HasPrefix(k, "c:")
+	}
+	ser := func(f map[string]bool) string {
+		ks := make([]string, 0, len(f))
+		for k, v := range f {
+			if v {
+				ks = append(ks, k+"=1")
+			} else {
+				ks = append(ks, k+"=0")
+			}
+		}
+		sort.Strings(ks)
+		return strings.Join(ks, "&")
+	}
+	type item struct {
+		b     *ssa.BasicBlock
+		ai    int // index of the arrival predecessor, -1 at the entry
+		facts map[string]bool
+		from  int
+		note  string
+	}
+	trail := []item{{fn.Blocks[0], -1, facts, -1, "entry"}}
+	seen := map[string]bool{}
+	queue := []int{0}
+	witness := func(i int, last string) []string {
+		var w []string
+		for j := i; j >= 0; j = trail[j].from {
+			s := fmt.Sprintf("b%d", trail[j].b.Index)
+			if trail[j].note != "" {
+				s = trail[j].note + " -> " + s
+			}
+			w = append(w, s)
+		}
+		for l, r := 0, len(w)-1; l < r; l, r = l+1, r-1 {
+			w[l], w[r] = w[r], w[l]
+		}
+		return append(w, last)
+	}
+	for len(queue) > 0 {
+		if len(trail) > 200000 {
+			return nil, true
+		}
+		cur := queue[0]
+		queue = queue[1:]
+		it := trail[cur]
+		b := it.b
+		fs := it.facts
+		copied := false
+		for _, in := range b.Instrs {
+			if target(in) {
+				return &c14WalkHit{in, witness(cur, "reaches "+eng.InstrStr(in))}, false
+			}
+			if st, ok := in.(*ssa.Store); ok {
+				if fa, ok := st.Addr.(*ssa.FieldAddr); ok {
+					if fv := eng.FieldVar(fa); fv != nil {
+						tag := "." + fv.Name() + ";"
+						for k := range fs {
+							if strings.Contains(k, tag) {
+								if !copied {
+									nf := map[string]bool{}
+									for kk, vv := range fs {
+										nf[kk] = vv
+									}
+									fs, copied = nf, true
+								}
+								delete(fs, k)
+							}
+						}
+					}
+				}
+			}
+		}
+		ifi := eng.IfOf(b)
+		for si, succ := range b.Succs {
+			if isBlocked[eng.Edge{From: b, Succ: si}] {
+				continue
+			}
+			nf := fs
+			note := ""
+			if ifi != nil {
+				v := ssa.Value(ifi.Cond)
+				pol := true
+				for {
+					if u, ok := v.(*ssa.UnOp); ok && u.Op == token.NOT {
+						pol = !pol
+						v = u.X
+						continue
+					}
+					break
+				}
+				if phi, ok := v.(*ssa.Phi); ok && phi.Block() == b && it.ai >= 0 && it.ai < len(phi.Edges) {
+					v = phi.Edges[it.ai]
+				}
+				want := (si == 0) == pol // truth of v on this edge
+				if k, ok := v.(*ssa.Const); ok && k.Value != nil && k.Value.Kind() == constant.Bool {
+					if constant.BoolVal(k.Value) != want {
+						continue
+					}
+				} else {
+					key, kp := c14FactKey(v)
+					prop := want == kp // truth of the proposition on this edge
+					if have, ok := fs[key]; ok {
+						if have != prop {
+							continue
+						}
+					} else if tracked(key) {
+						nf = map[string]bool{}
+						for kk, vv := range fs {
+							nf[kk] = vv
+						}
+						nf[key] = prop
+					}
+				}
+				note = fmt.Sprintf("[%s]=%v", eng.Normalize(ifi.Cond).Base, (si == 0) == eng.Normalize(ifi.Cond).Pol)
+			}
+			ai := -1
+			for pi, p := range succ.Preds {
+				if p == b {
+					ai = pi
+					break
+				}
+			}
+			key := fmt.Sprintf("%d|%d|%s", succ.Index, ai, ser(nf))
+			if seen[key] {
+				continue
+			}
+			seen[key] = true
+			trail = append(trail, item{succ, ai, nf, cur, note})
+			queue = append(queue, len(trail)-1)
+		}
+	}
+	return nil, false
+}
+
+// c14MetadataCasRules: the handlers that rewrite the metadata record itself
+// (metadata PUT and PATCH) persist it only behind an exact check-and-set on
+// CurrentMetadataVersion whenever metadata_cas is supplied, and refuse a
+// request without metadata_cas when the key OR the engine requires it.
+func c14MetadataCasRules(c *eng.Ctx, fname string) {
+	f := c.Fn(fname)
+	if f == nil {
+		return
+	}
+	gkm := eng.Calls(f, `^kv\.\(\*versionedKVBackend\)\.getKeyMetadata$`)
+	wkm := eng.Calls(f, `^kv\.\(\*versionedKVBackend\)\.writeKeyMetadata$`)
+	cfg := eng.Calls(f, `^kv\.\(\*versionedKVBackend\)\.config$`)
+	var casGet ssa.CallInstruction
+	for _, g := range eng.Calls(f, `^framework\.\(\*FieldData\)\.GetOk$`) {
+		if a := g.Common().Args; len(a) == 2 && eng.Expr(a[1]) == `"metadata_cas"` {
+			casGet = g
+		}
+	}
+	c.Clause("R2", "C14.2")
+	nCas := 0
+	if casGet != nil {
+		nCas = 1
+	}
+	if !(c.Floor(f, "getKeyMetadata call", len(gkm), 1) && c.Floor(f, "writeKeyMetadata call", len(wkm), 1) &&
+		c.Floor(f, "engine config read", len(cfg), 1) && c.Floor(f, "read of the metadata_cas option", nCas, 1)) {
+		return
+	}
+	M, CFG := eng.ResultValue(gkm[0], 0), eng.ResultValue(cfg[0], 0)
+	casVal, casOk := eng.ResultValue(casGet, 0), eng.ResultValue(casGet, 1)
+	if M == nil || CFG == nil || casVal == nil || casOk == nil {
+		c.Undecided(f, "metadata check-and-set", f.Pos(), "the metadata record, the engine config or the metadata_cas option/presence flag is not bound to a value: the rule cannot be evaluated")
+		return
+	}
+	W := eng.AsInstrs(wkm)
+	present, absent := eng.BoolEdges(casOk, true), eng.BoolEdges(casOk, false)
+	metaNil, metaNonNil := eng.ValueNilEdges(M, true), eng.ValueNilEdges(M, false)
+	isCas := func(v ssa.Value) bool {
+		for {
+			switch x := v.(type) {
+			case *ssa.Convert:
+				v = x.X
+				continue
+			case *ssa.ChangeType:
+				v = x.X
+				continue
+			case *ssa.TypeAssert:
+				v = x.X
+				continue
+			}
+			break
+		}
+		return v == casVal
+	}
+	var eqCur, eqZero []eng.Edge
+	for _, b := range f.Blocks {
+		ifi := eng.IfOf(b)
+		if ifi == nil {
+			continue
+		}
+		nc := eng.Normalize(ifi.Cond)
+		bo, ok := nc.Val.(*ssa.BinOp)
+		if !ok || (bo.Op != token.EQL && bo.Op != token.NEQ) {
+			continue
+		}
+		x, y := bo.X, bo.Y
+		if isCas(y) {
+			x, y = y, x
+		}
+		if !isCas(x) {
+			continue
+		}
+		eqEdge := eng.Edge{From: b, Succ: 1}
+		if nc.Pol {
+			eqEdge.Succ = 0
+		}
+		if ld, base := c14LoadOfField(y, "CurrentMetadataVersion"); ld != nil && base == M {
+			eqCur = append(eqCur, eqEdge)
+		} else if k, ok := y.(*ssa.Const); ok && k.Value != nil && k.Value.Kind() == constant.Int && constant.Sign(k.Value) == 0 {
+			eqZero = append(eqZero, eqEdge)
+		}
+	}
+	site := "metadata write (existing key, metadata_cas supplied)"
+	if len(eqCur) == 0 {
+		c.Violation(f, "sink{"+site+"} guard{metadata_cas == meta.CurrentMetadataVersion}", wkm[0].Pos(), "guard absent: no branch compares the supplied metadata_cas for equality with CurrentMetadataVersion of the metadata read under the lock (an ordering test or a test against another record is not a check-and-set)", nil)
+	} else {
+		c.Cut(f, site, W, eng.Guard{Desc: "metadata_cas == meta.CurrentMetadataVersion OR metadata_cas absent OR no metadata yet", Edges: append(append(append([]eng.Edge{}, eqCur...), absent...), metaNil...)}, nil)
+	}
+	c.Cut(f, "metadata write (new key, metadata_cas supplied)", W, eng.Guard{Desc: "metadata_cas == 0 OR metadata_cas absent OR metadata exists", Edges: append(append(append([]eng.Edge{}, eqZero...), absent...), metaNonNil...)}, nil)
+	if len(present) == 0 {
+		c.Violation(f, "metadata_cas presence is tested", casGet.Pos(), "the presence flag of the metadata_cas option is never branched on", nil)
+		return
+	}
+	// required = key OR engine: with either flag set, the write needs metadata_cas
+	for _, r := range []struct {
+		what  string
+		facts map[string]bool
+	}{
+		{"the key's metadata_cas_required is set", map[string]bool{c14FieldKey(M, "MetadataCasRequired"): true, c14NilKey(M): false}},
+		{"the engine's metadata_cas_required is set", map[string]bool{c14FieldKey(CFG, "MetadataCasRequired"): true}},
+	} {
+		site := "on{" + r.what + "} metadata write only with metadata_cas"
+		h, exhausted := c14Walk(f, r.facts, present, eng.IsTarget(W))
+		switch {
+		case exhausted:
+			c.Undecided(f, site, wkm[0].Pos(), "state bound reached while walking the handler; not decided")
+		case h != nil:
+			c.Violation(f, site, h.instr.Pos(), "although "+r.what+", the metadata record can be written by a request that carries no metadata_cas (check-and-set is required when the key OR the engine asks for it)", h.witness)
+		default:
+			c.OK(f, site, wkm[0].Pos(), "when "+r.what+", every path to writeKeyMetadata crosses the metadata_cas-present edge (phi-sensitive walk)")
+		}
+	}
 }
